@@ -566,3 +566,23 @@ def inlined_function(model, fi, depth: int = 3, same_module_private_only: bool =
             break
     clone._parent = None  # type: ignore[attr-defined]
     return clone
+
+
+def worker_tuples(fn: ast.AST, name: str = "args") -> List[ast.Tuple]:
+    """The tuples a function packs for its workers, whichever way the list `name` is built: name.append((…)) in loops,
+    name = [(…) for …], name = [(…), (…)], name += [(…)]."""
+    out: List[ast.Tuple] = []
+    for n in walk_ordered(fn):
+        if isinstance(n, ast.Call) and isinstance(n.func, ast.Attribute) and n.func.attr == "append" and norm(n.func.value) == name \
+                and n.args and isinstance(n.args[0], ast.Tuple):
+            out.append(n.args[0])
+        elif isinstance(n, (ast.Assign, ast.AnnAssign, ast.AugAssign)) and getattr(n, "value", None) is not None:
+            t = n.targets[0] if isinstance(n, ast.Assign) else n.target
+            if norm(t) != name:
+                continue
+            v = n.value
+            if isinstance(v, (ast.ListComp, ast.GeneratorExp)) and isinstance(v.elt, ast.Tuple):
+                out.append(v.elt)
+            elif isinstance(v, ast.List):
+                out += [e for e in v.elts if isinstance(e, ast.Tuple)]
+    return out
